@@ -65,9 +65,16 @@ def invalid_config(rng, scheme, cfg):
     from props.c08 import FIELDS
     f = FIELDS[scheme]
     names = list(f["names"])
-    kind = rng.randrange(8)
+    kind = rng.randrange(11)
     c = copy.deepcopy(cfg)
-    if kind == 0:
+    if kind >= 8:
+        # a twin that compares EQUAL to the valid configuration (32.0 == 32, True == 1) but is typed differently, as a
+        # hand-edited or exported JSON file may be: refused by the schemes that insist on integers
+        ints = [k for k, v in c.items() if isinstance(v, int) and not isinstance(v, bool)]
+        k = rng.choice(ints) if ints else None
+        if k is not None:
+            c[k] = float(c[k]) if (kind < 10 or c[k] != 1) else True
+    elif kind == 0:
         c["scheme"] = "NoSuch.Scheme"
     elif kind == 5:
         c["scheme"] = rng.choice([scheme + " ", " " + scheme, "\t" + scheme, scheme + "\n"])  # a known name, padded
